@@ -16,6 +16,7 @@ import (
 	"verif/harness/evid"
 	"verif/harness/gen"
 	"verif/harness/layout"
+	"verif/harness/reflex"
 	"verif/harness/shape"
 )
 
@@ -130,7 +131,95 @@ func safeCompile(p *ast.Program, c Cfg) (code string, perr interface{}, stack st
 	return compile(p, c).Code, nil, ""
 }
 
+// c11Check: Kind "single-edit-sweep" enumerates every single-lexeme edit of the
+// (valid) program in Src - deletion of each lexeme, its replacement by each
+// entry of sweepLexemes, and the insertion of each entry in front of it - and
+// checks each edited text; every other kind checks Src itself.
 func c11Check(c c11Case, rec *evid.Recorder) *Fail {
+	if c.Kind != "single-edit-sweep" {
+		return c11CheckText(c, rec)
+	}
+	src := string(c.Src)
+	lx := scanAllLexemes(src)
+	n := 0
+	try := func(edit, text string) *Fail {
+		n++
+		if f := c11CheckText(c11Case{Src: []byte(text), Kind: c.Kind}, rec); f != nil {
+			f.Msg = fmt.Sprintf("[%s of %q] %s", edit, src, f.Msg)
+			return f
+		}
+		return nil
+	}
+	for i, l := range lx {
+		end := l.off + l.len
+		if f := try(fmt.Sprintf("deleting lexeme %d", i), src[:l.off]+" "+src[end:]); f != nil {
+			return f
+		}
+		for _, w := range sweepLexemes {
+			if f := try(fmt.Sprintf("replacing lexeme %d by %q", i, w), src[:l.off]+w+src[end:]); f != nil {
+				return f
+			}
+			if f := try(fmt.Sprintf("inserting %q before lexeme %d", w, i), src[:l.off]+w+" "+src[l.off:]); f != nil {
+				return f
+			}
+		}
+	}
+	for _, w := range sweepLexemes {
+		if f := try(fmt.Sprintf("appending %q", w), src+" "+w); f != nil {
+			return f
+		}
+	}
+	rec.ClassN("sweep:edited-texts", n)
+	rec.Class("sweep:programs")
+	return nil
+}
+
+var c11Sweeps int
+
+var sweepLexemes = []string{"(", ")", "{", "}", "[", "]", ",", ";", ":", ".", "=", "+", "-", "++", "!", "==", "+=", "let", "function", "if", "else", "while", "for", "return", "x", "1", "\"s\"", "`t`", "\"open", "@", "\n"}
+
+type rawLexeme struct{ off, len int }
+
+// scanAllLexemes: extents of all lexemes of a text, `;` included.
+func scanAllLexemes(src string) (out []rawLexeme) {
+	b := []byte(src)
+	i := 0
+	for i < len(b) {
+		c := b[i]
+		switch {
+		case c == '/' && i+1 < len(b) && b[i+1] == '/':
+			for i < len(b) && b[i] != '\n' {
+				i++
+			}
+		case reflex.IsSpace(c):
+			i++
+		case c == '"' || c == '\'' || c == '`':
+			e, _ := reflex.StringEnd(b, i)
+			if e > len(b) {
+				e = len(b)
+			}
+			out = append(out, rawLexeme{i, e - i})
+			i = e
+		case reflex.IsIdentPart(c):
+			e := i
+			for e < len(b) && (reflex.IsIdentPart(b[e]) || (b[e] == '.' && reflex.IsDigit(c) && e+1 < len(b) && reflex.IsDigit(b[e+1]))) {
+				e++
+			}
+			out = append(out, rawLexeme{i, e - i})
+			i = e
+		default:
+			n := len(reflex.OperatorAt(b, i))
+			if n == 0 {
+				n = 1
+			}
+			out = append(out, rawLexeme{i, n})
+			i += n
+		}
+	}
+	return out
+}
+
+func c11CheckText(c c11Case, rec *evid.Recorder) *Fail {
 	src := string(c.Src)
 	var toks []token.Token
 	for _, m := range allModes {
@@ -238,7 +327,18 @@ func mutateTokens(r gen.R, toks []*layout.Tok) string {
 
 func c11Gen(t *rapid.T, rec *evid.Recorder) c11Case {
 	r := gen.R{T: t}
-	switch r.Pick("c11kind", 5, 2, 3) {
+	kind := r.Pick("c11kind", 100, 40, 60, 1)
+	if kind == 3 && !thorough() && c11Sweeps >= 8 {
+		kind = 0 // quick tier: at most 8 sweeps per shard (each checks ~1000 edited texts)
+	}
+	switch kind {
+	case 3:
+		c11Sweeps++
+		g := &gen.Syn{R: r, MaxDepth: 1 + r.Intn(2, "depth"), StmtDepth: r.Intn(3, "sdepth"), Tpl: true}
+		tree := g.Program(3)
+		src, _ := layout.Source(r, tree, layout.Options{Random: r.Bool("randlayout"), ASI: true})
+		rec.Class("gen:single-edit-sweep")
+		return c11Case{Src: []byte(src), Kind: "single-edit-sweep"}
 	case 0:
 		g := &gen.Syn{R: r, MaxDepth: 1 + r.Intn(3, "depth"), StmtDepth: r.Intn(3, "sdepth"), RichStr: true, Tpl: true, MultiTpl: true}
 		tree := g.Program(4)
@@ -262,6 +362,7 @@ func c11Gen(t *rapid.T, rec *evid.Recorder) c11Case {
 }
 
 var c11Witnesses = []c11Case{
+	{Src: []byte("if (a) b; else c\nwhile (d) e\nfor (let i = 0; i < 3; i++) f(i)\nfunction g(h) { return {k: [h]} }"), Kind: "single-edit-sweep"},
 	{Src: []byte("let")}, {Src: []byte("let x = ;")}, {Src: []byte("function (")}, {Src: []byte("{ let } a")}, {Src: []byte("if (a")}, {Src: []byte("a b")},
 	{Src: []byte("for (;;")}, {Src: []byte("f(,)")}, {Src: []byte("x = {a:}")}, {Src: []byte("return return")}, {Src: []byte("((((")}, {Src: []byte("}")}, {Src: []byte("a.")}, {Src: []byte("a[")},
 	{Src: []byte("function f() { let }")}, {Src: []byte("while (a) let")}, {Src: []byte("if (a) function")}, {Src: []byte("1e+")}, {Src: []byte("0x")}, {Src: []byte("99999999999999999999")},
